@@ -123,6 +123,17 @@ func VerifPoolTrackerStop() (gets, puts [6]int, violations, log []string) {
 	return t.gets, t.puts, t.violations, t.log
 }
 
+// VerifPoolHolds reports whether the tracker has seen obj go back to its pool
+// and not come out again: the harness asks this about a request context whose
+// handler it is still holding.
+func VerifPoolHolds(obj interface{}) bool {
+	t := &verifTracker
+	t.mu.Lock()
+	defer t.mu.Unlock()
+
+	return t.on && t.inPool[verifAddr(obj)]
+}
+
 // VerifPoolOutstanding returns, per pool, how many tracked objects are owned
 // (acquired and not released) right now.
 func VerifPoolOutstanding() (out [6]int) {
